@@ -22,11 +22,11 @@ fn space_for(tier: Tier) -> Space {
     match tier {
         Tier::Quick => {
             s.tok("T", &gen::T_FULL, 3, 1024).tok("T0", &gen::T_CORE, 4, 1024).tok("TU", &gen::T_UNI, 3, 1024).tok("TQ", &gen::T_QUANT, 5, 1024).tok("TG", &gen::T_GROUP, 6, 1024).tok("TX", &gen::T_XCLS, 4, 1024).tok("TC", &gen::T_CLS, 5, 1024);
-            s.ast("K", 4, 128).ast("Q", 3, 128).ast("CL", 3, 128).ast("G", 4, 128).ast("CAPQ", 3, 128);
+            s.ast("K", 4, 128).ast("Q", 3, 128).ast("CL", 3, 128).ast("G", 4, 128).ast("CAPQ", 3, 128).ast("ALT3", 5, 128);
         }
         Tier::Thorough => {
             s.tok("T", &gen::T_FULL, 4, 2048).tok("T0", &gen::T_CORE, 5, 2048).tok("TU", &gen::T_UNI, 4, 2048).tok("TQ", &gen::T_QUANT, 6, 2048).tok("TG", &gen::T_GROUP, 7, 2048).tok("TX", &gen::T_XCLS, 5, 2048).tok("TC", &gen::T_CLS, 6, 2048);
-            s.ast("K", 5, 128).ast("Q", 4, 128).ast("CL", 4, 128).ast("G", 5, 128).ast("AN", 4, 128).ast("CAPQ", 4, 128);
+            s.ast("K", 5, 128).ast("Q", 4, 128).ast("CL", 4, 128).ast("G", 5, 128).ast("AN", 4, 128).ast("CAPQ", 4, 128).ast("ALT3", 5, 128);
         }
     }
     s.list("flagstrings", 1 + 6 + 36, 64);
